@@ -1266,6 +1266,9 @@ class Channel(ClosingContextManager):
         m.add_byte(cMSG_CHANNEL_EOF)
         m.add_int(self.remote_chanid)
         self.eof_sent = True
+        # wake senders blocked in _wait_for_send_window: nothing more can be
+        # sent on this channel, they must not keep waiting for window space
+        self.out_buffer_cv.notify_all()
         self._log(DEBUG, "EOF sent ({})".format(self._name))
         return m
 
